@@ -161,7 +161,10 @@ class ConstEval:
                 elif op == 'getelementptr':
                     base = val(ins.ops[0])
                     idx = [val(x) for x in ins.ops[1:]]
-                    if isinstance(base, tuple) and base[0] in ('g', 'obj') and all(isinstance(i, int) for i in idx):
+                    if isinstance(base, tuple) and base[0] == 'obj' and base[2] == () and ins.gep_base_ty == 'i8' and len(idx) == 1 \
+                       and isinstance(idx[0], int):
+                        env[ins.res] = ('obj', base[1], ('byte', idx[0]))      # byte view of a local scalar
+                    elif isinstance(base, tuple) and base[0] in ('g', 'obj') and all(isinstance(i, int) for i in idx):
                         path = list(base[2])
                         if idx[0] != 0:
                             if path:
@@ -176,7 +179,13 @@ class ConstEval:
                         env[ins.res] = None
                 elif op == 'load':
                     p = val(ins.ops[0])
-                    if isinstance(p, tuple) and p[0] == 'obj':
+                    if isinstance(p, tuple) and p[0] == 'obj' and len(p[2]) == 2 and p[2][0] == 'byte':
+                        whole = objects.get(p[1], {}).get(())
+                        if isinstance(whole, int) and ins.ty == 'i8' and 0 <= p[2][1] < 8:
+                            env[ins.res] = wrap((whole >> (8 * p[2][1])) & 0xff, 8)
+                        else:
+                            events.append(('oob', ins, (p[1], p[2]))); env[ins.res] = None
+                    elif isinstance(p, tuple) and p[0] == 'obj':
                         env[ins.res] = objects.get(p[1], {}).get(p[2])
                     elif isinstance(p, tuple) and p[0] == 'null':
                         events.append(('null-deref', ins, None)); env[ins.res] = None
